@@ -1,4 +1,6 @@
 mod c07;
+mod c17;
+mod simio;
 mod common;
 mod engine;
 mod scenario;
@@ -7,7 +9,7 @@ mod simterm;
 use engine::{Check, Tier};
 
 fn all_checks() -> Vec<&'static dyn Check> {
-    vec![&c07::C07]
+    vec![&c07::C07, &c17::C17]
 }
 
 fn usage() -> ! {
